@@ -42,14 +42,21 @@ def gen_cases(E, ctx):
         if s.name not in E.BC: continue
         for i in range(6 if not ctx.thorough else 60):
             cases.append(E.make_case(rng, s, maxdepth=rng.choice([4, 5, 6]), size=rng.choice([1.0, 4.0]), klass='deep'))
-    for s in E.corpus:      # embed_buffer inside nested levels, alignments 8..256
+    for s in E.corpus:      # embed_buffer at any depth (top-level buffer and nested levels), align 1..256, block_align 0..256, with_size on/off
         if s.name in ('bnest', 'bmixd') and s.name in E.BC:
             for i in range(60 if not ctx.thorough else 600):
-                cases.append(E.make_case(rng, s, maxdepth=rng.choice([3, 4]), size=0.3, klass='nested-embed', embed_bias=0.7))
+                cases.append(E.make_case(rng, s, maxdepth=rng.choice([3, 4]), size=0.3, klass='nested-embed', embed_bias=0.7, embed_min_depth=1 + i % 2))
+            # every nested field of the top-level buffer filled by embed_buffer (depth 1: nest_id 0, level 1)
+            for i in range(60 if not ctx.thorough else 600):
+                cases.append(E.make_case(rng, s, maxdepth=rng.choice([1, 2, 3]), size=0.3, klass='embed-top-level',
+                                         embed_bias=rng.choice([0.0, 0.5]), embed_top=1.0, embed_ws=rng.choice([0.0, 0.3, 1.0])))
     if 'bwide' in E.BC:
         for i in range(4 if not ctx.thorough else 40):
             cases.append(E.make_wide_case(rng, count=rng.choice([100, 130, 200])))
     return cases
+
+
+def raw_of(c): return c.himpl['raw']
 
 
 def check_case_oracles(E, ctx, cases):
@@ -81,6 +88,15 @@ def check_case_oracles(E, ctx, cases):
         rej = [x for x in lst if x[1] and not x[3].startswith('0 ')]
         base = {'harness_line': c.h, 'model_line': c.m, 'schema': c.schema.name, 'root': c.root, 'opts': str(c.opts),
                 'buffer_hex': c.himpl['bytes'], 'dec_line': line, 'reported_alignment': c.himpl['align']}
+        lost = bu.embed_header_lost(c.schema, c.node, raw_of(c), 4 if c.opts['with_size'] else 0)
+        if lost:
+            flagged.add(id(c))
+            ctx.violation('embed-top-level-no-header',
+                          'embed_buffer called inside the open top-level buffer emitted the bytes without the ubyte vector length (nested field %s points straight '
+                          'at the embedded bytes): the finished buffer is malformed (independent format checker: %s%s)' % (
+                              lost[0], r[:40], '; generated verifier: ' + rej[0][3] if rej else ''),
+                          dict(base, path=lost[0], **({'verify_line': rej[0][0]} if rej else {})))
+            continue
         if r == 'NONE' or r.startswith('EXC'):
             flagged.add(id(c))
             if rej:
@@ -165,6 +181,7 @@ def run(ctx):
     ctx.log('%d build cases' % len(cases))
     E.run_builds(cases)
     compare_builds(E, ctx, cases)
+    E.embed_no_parent(rng, 12 if not ctx.thorough else 120)        # embed_buffer with no buffer open: plain emission, no size field header
     flagged = check_case_oracles(E, ctx, cases)
     # model / implementation disagreements that the oracles did not already explain
     explained = False
